@@ -89,6 +89,38 @@ namespace vf
       }
    };
 
+   // the same symbolic sub-rule with the SIMPLE rule interface ( match( in ) only ): such rules are called by match_no_control() without a
+   // rewind guard and without modes, so it must not move the cursor when it fails (reported as rewind_mode::required); the apply mode is not
+   // known to it and logged as 7
+   template< int K >
+   struct syml
+   {
+      using rule_t = syml;
+      using subs_t = empty_list;
+
+      template< typename ParseInput >
+      [[nodiscard]] static bool match( ParseInput& in )
+      {
+         unsigned long np = 0;
+         const unsigned long pos = in.byte();
+         const int r = verif_sym( K, pos, 7, int( rewind_mode::required ), &np );
+         in.bump_in_this_line( np - pos );
+         if( r == 2 ) {
+            throw verif_exc{ 1000 + K, in.byte(), 0, 0 };
+         }
+         if( r == 3 ) {
+            throw foreign_exc{ 2000 + K };
+         }
+         return r == 1;
+      }
+   };
+
+   template< int K >
+   struct rid< syml< K > >
+   {
+      static constexpr int value = K;
+   };
+
    // symbolic sub-rule whose behaviour may also depend on where its (sub-)input ends: for rematch<> / minus<>
    extern "C" int verif_sym2( int k, unsigned long pos, unsigned long end, int a, int m, unsigned long* np );
 
@@ -218,6 +250,38 @@ namespace vf
       else {
          out[ 4 ] = 0;
          out[ 5 ] = 0;
+      }
+   }
+
+   // the same run made from a destructor while an unrelated exception is propagating (a parse during stack unwinding: scope guards,
+   // destructors that flush or log): everything the library does must be independent of std::uncaught_exceptions()
+   struct unrelated_exc
+   {
+      int dummy;
+   };
+
+   template< typename Rule, apply_mode A, rewind_mode M, template< typename... > class Action, template< typename... > class Control, typename Input >
+   struct run_in_dtor
+   {
+      const char* b;
+      unsigned long n;
+      unsigned long start;
+      unsigned long* out;
+
+      ~run_in_dtor()
+      {
+         run< Rule, A, M, Action, Control, Input >( b, n, start, out );
+      }
+   };
+
+   template< typename Rule, apply_mode A, rewind_mode M, template< typename... > class Action, template< typename... > class Control, typename Input = eager_in >
+   inline void run_unwinding( const char* b, unsigned long n, unsigned long start, unsigned long* out )
+   {
+      try {
+         const run_in_dtor< Rule, A, M, Action, Control, Input > d{ b, n, start, out };
+         throw unrelated_exc{ 1 };
+      }
+      catch( const unrelated_exc& ) {
       }
    }
 
@@ -506,6 +570,26 @@ namespace vf
       static constexpr int value = std::decay_t< S >::id;
    };
 
+   // what an action sees of the state list: id of the first state + 16 * id of the second one (0: there is none)
+   template< typename... States >
+   struct sid_sig
+   {
+      static constexpr int value = first_sid< States... >::value;
+   };
+
+   template< typename S, typename... States >
+   struct sid_sig< S, States... >
+   {
+      static constexpr int value = std::decay_t< S >::id + 16 * first_sid< States... >::value;
+   };
+
+   // a second state that only carries an identity (the order in which several new states are constructed is unspecified)
+   template< int ID >
+   struct qstate
+   {
+      static constexpr int id = ID;
+   };
+
    // logging state: constructor / success / destructor
    template< int ID >
    struct vstate
@@ -573,7 +657,7 @@ namespace vf
       template< typename... States >
       static void apply0( States&&... /*unused*/ )
       {
-         verif_event( EV_APPLY0, rid< Rule >::value, first_sid< States... >::value, Tag );
+         verif_event( EV_APPLY0, rid< Rule >::value, sid_sig< States... >::value, Tag );
       }
    };
 
@@ -719,6 +803,9 @@ namespace vf
 
 #define VF_WRAP( name, ... ) \
    extern "C" __attribute__( ( noinline ) ) void name( const char* b, unsigned long n, unsigned long s, unsigned long* o ) { vf::run< __VA_ARGS__ >( b, n, s, o ); }
+
+#define VF_WRAP_UNW( name, ... ) \
+   extern "C" __attribute__( ( noinline ) ) void name( const char* b, unsigned long n, unsigned long s, unsigned long* o ) { vf::run_unwinding< __VA_ARGS__ >( b, n, s, o ); }
 
 // lazy input: the four combinations with no action attached
 #define VF_WRAP4L( name, ... )                                                                                                 \
